@@ -30,7 +30,8 @@ def lim(x):
 
 
 # ---------------------------------------------------------------- vocabulary
-METHODS_OK = [b"GET", b"POST", b"PUT", b"DELETE", b"OPTIONS", b"M-SEARCH", b"x", b"get", b"G!#$%&'*+-.^_`|~9",
+METHODS_OK = [b"GET", b"POST", b"PUT", b"DELETE", b"OPTIONS", b"HEAD", b"CONNECT", b"TRACE", b"PATCH", b"head", b"Connect",
+              b"M-SEARCH", b"x", b"get", b"G!#$%&'*+-.^_`|~9",
               b"PUBLI\xc3\x89", b"\xe2\x82\xac\xf0\x9f\x98\x80"]      # the method is not validated: multi-byte UTF-8 is accepted
 METHODS_ODD = [b"", b"G\xc3\xa9T", b"GE\tT", b"G\x00T", b"\xff", b"G:T", b"GET\r", b"\nGET"]
 TARGETS_OK = [b"/", b"*", b"/index.html", b"/a/b/c?x=1&y=2", b"/a%20b", b"/%41", b"/\xc3\xa9t\xc3\xa9",
@@ -47,11 +48,13 @@ PROTOS_ODD = [b"HTTP/1.0", b"HTTP/1.10", b"HTTP/1.1 ", b" HTTP/1.1", b"http/1.1"
               b"HTTP/1.1 x", b"HTTP", b"HTTP/1.1\x00"]
 
 NAMES_OK = [b"Host", b"Accept", b"X-Foo", b"User-Agent", b"x", b"X_y.z!", b"Content-Type", b"Connection",
-            b"Trailer", b"Content-Encoding", b"TE", b"Via"]
+            b"Trailer", b"Content-Encoding", b"TE", b"Via", b"Expect", b"Upgrade", b"Content-Range", b"Range",
+            b"Keep-Alive", b"Proxy-Connection", b"Content-MD5", b"X-Content-Length", b"Content-Length-X", b"Host"]
 NAMES_ODD = [b"", b"A B", b"A\tB", b"N\x7fme", b"N\xc3\xa9", b"\xff", b"A\x00", b" Lead", b"Trail "]
 VALUES_OK = [b"x", b"", b"www.example.com", b"a, b, c", b"  padded\t ", b"text/plain; charset=utf-8",
              b"5", b"a:b:c", b"\"quoted, comma\"", b"~!@#$%^&*()", b"a" * 40, b"gzip", b"chunked", b",", b",,a,",
-             b"close", b"keep-alive", b"Close, Upgrade", b"100-continue", b"identity"]
+             b"close", b"keep-alive", b"Close, Upgrade", b"100-continue", b"identity", b"bytes 0-4/10", b"bytes=0-",
+             b"websocket", b"h2c", b"timeout=5, max=100", b"trailers", b"0", b"-1", b"chunked, gzip"]
 VALUES_ODD = [b"\x7f", b"a\x00b", b"\xc3\xa9", b"\xff", b"a\x0bb", b"a\rb", b"a\nb", b"\x01"]
 CL_NAMES = [b"Content-Length", b"content-length", b"CONTENT-LENGTH", b"Content-length", b"cOnTeNt-LeNgTh"]
 TE_NAMES = [b"Transfer-Encoding", b"transfer-encoding", b"TRANSFER-ENCODING", b"Transfer-encoding"]
@@ -173,6 +176,8 @@ def gen_request(rng, p_odd=0.08):
     elif r < 0.62:
         fields.insert(rng.randint(0, len(fields)), rng.choice(TE_NAMES) + b": chunked")
         body = gen_chunked(rng)[0]
+        if rng.random() < 0.3:
+            fields.insert(rng.randint(0, len(fields)), rng.choice(CL_NAMES) + b": " + cl_value(rng, len(body), p_odd))
     eol = CRLF if rng.random() > p_odd / 2 else rng.choice([b"\n", b"\r", b"\r\r\n", b"\n\r"])
     head = line + eol + block(fields)
     meta = {"line": len(line), "field_lines": [len(x) + 2 for f in fields for x in f.split(CRLF)],
@@ -247,7 +252,8 @@ def gen_chunked(rng, p_odd=0.0, payload=None):
 
 
 # ---------------------------------------------------------------- responses
-CODES_OK = [b"200", b"404", b"100", b"0", b"007", b"999", b"000", b"99", b"1"]
+CODES_OK = [b"200", b"404", b"100", b"0", b"007", b"999", b"000", b"99", b"1", b"101", b"103", b"199", b"204", b"205",
+            b"206", b"301", b"304", b"500", b"204", b"304"]
 CODES_ODD = [b"1000", b"+200", b"-1", b"2 00", b"", b"20x", b"0x10", b"99999999999999999999", b"2_0",
              b"18446744073709551615", b"18446744073709551616", b" 200", b"200\t", b"\xef\xbc\x92"]
 REASONS = [b"OK", b"", b"Not Found", b" OK ", b"O\tK", b"caf\xc3\xa9", b"a  b", b"x" * 50, b"200", b":"]
@@ -282,6 +288,8 @@ def gen_response(rng, p_odd=0.08, framing=None):
             payload = gen_chunked(rng, 0.0)[0]       # Content-Length wins: these bytes are the body verbatim
         fields.insert(rng.randint(0, len(fields)), rng.choice(CL_NAMES) + b": " + cl_value(rng, len(payload), p_odd))
         body = payload
+        if rng.random() < 0.06:
+            fields.insert(rng.randint(0, len(fields)), rng.choice(CL_NAMES) + b": " + cl_value(rng, len(payload), p_odd))
         if rng.random() < 0.4:
             body += gen_body(rng, 12)       # trailing data
     if framing in ("chunked", "both"):
@@ -294,7 +302,8 @@ def gen_response(rng, p_odd=0.08, framing=None):
         else:
             fields.insert(k, rng.choice(TE_NAMES) + b": " + tev)
         if rng.random() < 0.4:
-            fields.insert(rng.randint(0, len(fields)), rng.choice([b"Trailer", b"trailer", b"TRAILER"]) + b": X-Foo")
+            ann = rng.choice([b"X-Foo", b"X-Foo", b"Host, Accept", b"x", b"X-Other", b"Content-Type,Via", b"", b"Content-Length"])
+            fields.insert(rng.randint(0, len(fields)), rng.choice([b"Trailer", b"trailer", b"TRAILER"]) + b": " + ann)
         if framing == "chunked":
             enc, payload, _ = gen_chunked(rng, p_odd)
             body = enc
